@@ -106,6 +106,7 @@ type mstate struct {
 	pendRC  uint8
 	names   [2]uint8
 	open    uint64
+	rel     uint64    // defect model D: modules whose (first) close already released the name they were created under
 	pendC   [64]uint8 // relaxed module close: closes that marked the module closed and have not returned yet
 }
 
@@ -122,16 +123,32 @@ func bit(id int) uint64 { return uint64(1) << uint(id) }
 // marked returns at once.
 // In both cases the call that did the marking must have finished the job by
 // the time the last overlapping close returns.
-type relax struct{ M, R bool }
+//
+// D and H describe two defects that a single client can already trigger; they
+// exist only to attribute the concurrent histories these defects spoil to one
+// signature each instead of to arbitrary symptoms:
+// D: an instantiate that fails with "name in use" releases the name (the owner
+// stays open, nameless), and closing a module releases the name it was
+// instantiated under whoever owns it now.
+// H: HostModuleBuilder.Compile does not look at the closed flag.
+type relax struct{ M, R, D, H bool }
+
+var relaxNames = []string{"module-close-steps-visible", "runtime-close-steps-visible",
+	"failed-duplicate-instantiate-releases-name", "host-compile-ignores-closed-runtime"}
+
+func (r relax) parts() []string {
+	var p []string
+	for i, on := range []bool{r.M, r.R, r.D, r.H} {
+		if on {
+			p = append(p, relaxNames[i])
+		}
+	}
+	return p
+}
 
 func (r relax) String() string {
-	switch {
-	case r.M && r.R:
-		return "relaxed-both"
-	case r.M:
-		return "relaxed-module-close"
-	case r.R:
-		return "relaxed-runtime-close"
+	if p := r.parts(); len(p) > 0 {
+		return strings.Join(p, "+")
 	}
 	return "strict"
 }
@@ -149,7 +166,16 @@ type pout struct {
 	id  int
 }
 
-func (s mstate) releaseName(id int) mstate {
+func (s mstate) releaseName(rx relax, id, name int) mstate {
+	if rx.D {
+		if s.rel&bit(id) == 0 {
+			s.rel |= bit(id)
+			if name != anon {
+				s.names[name] = 0
+			}
+		}
+		return s
+	}
 	for n := range s.names {
 		if s.names[n] == uint8(id) {
 			s.names[n] = 0
@@ -159,7 +185,7 @@ func (s mstate) releaseName(id int) mstate {
 }
 
 func (s mstate) emptied() mstate {
-	s.closing, s.closed, s.open, s.names = true, true, 0, [2]uint8{}
+	s.closing, s.closed, s.open, s.names, s.rel = true, true, 0, [2]uint8{}, 0
 	return s
 }
 
@@ -193,7 +219,11 @@ func step(rx relax, s mstate, in pin, out pout) []mstate {
 			s.open |= bit(out.id)
 			return []mstate{s}
 		case rDup:
-			return one(!s.closed && in.name != anon && s.names[in.name] != 0, s)
+			ok := !s.closed && in.name != anon && s.names[in.name] != 0
+			if rx.D && ok {
+				s.names[in.name] = 0
+			}
+			return one(ok, s)
 		case rClosedErr, rOtherErr:
 			return one(s.closing, s)
 		}
@@ -208,7 +238,7 @@ func step(rx relax, s mstate, in pin, out pout) []mstate {
 	case in.kind == kClose || in.kind == kCloseX:
 		if !rx.M {
 			s.open &^= bit(in.id)
-			return []mstate{s.releaseName(in.id)}
+			return []mstate{s.releaseName(rx, in.id, in.name)}
 		}
 		if in.phase != 2 {
 			s.open &^= bit(in.id)
@@ -219,7 +249,7 @@ func step(rx relax, s mstate, in pin, out pout) []mstate {
 			return nil
 		}
 		s.pendC[in.id]--
-		rel := s.releaseName(in.id)
+		rel := s.releaseName(rx, in.id, in.name)
 		if rel == s || s.pendC[in.id] == 0 {
 			return []mstate{rel}
 		}
@@ -239,7 +269,7 @@ func step(rx relax, s mstate, in pin, out pout) []mstate {
 		return nil
 	case in.kind == kCompile || in.kind == kHostComp:
 		if out.res == rOK {
-			return one(!s.closing, s)
+			return one(!s.closing || (rx.H && in.kind == kHostComp), s)
 		}
 		return one(s.closing, s)
 	case in.kind == kRtClose:
@@ -304,6 +334,12 @@ func buildOps(rx relax, h []lop) []porcupine.Operation {
 			maxStamp = o.Ret
 		}
 	}
+	nameOf := map[int]int{}
+	for _, o := range h {
+		if o.Kind.isInst() && o.Res == rOK {
+			nameOf[o.ID] = o.Name
+		}
+	}
 	var ops []porcupine.Operation
 	for _, o := range h {
 		ret := o.Ret
@@ -317,6 +353,10 @@ func buildOps(rx relax, h []lop) []porcupine.Operation {
 			out.id = o.ID
 		default:
 			in.id = o.ID
+			in.name = anon
+			if n, ok := nameOf[o.ID]; ok {
+				in.name = n
+			}
 		}
 		ops = append(ops, porcupine.Operation{ClientId: o.Client, Input: in, Output: out, Call: o.Call, Return: ret})
 		if o.Res == rPanic {
@@ -333,19 +373,20 @@ func buildOps(rx relax, h []lop) []porcupine.Operation {
 const porcTimeout = 60 * time.Second
 
 func check(rx relax, h []lop) porcupine.CheckResult {
-	res, _ := porcupine.CheckOperationsVerbose(porcModel(rx), buildOps(rx, h), porcTimeout)
-	return res
+	return porcupine.CheckOperationsTimeout(porcModel(rx), buildOps(rx, h), porcTimeout)
 }
 
 // verdict of one history against the model family.
 type verdict struct {
-	Result string // ok | illegal | unknown
-	Level  string // for illegal: which relaxation (if any) explains it
-	Core   []lop  // 1-minimal illegal sub-history (labelling only)
+	Result  string // ok | illegal | unknown
+	Level   relax  // for illegal: the smallest set of relaxations that admits the history
+	None    bool   // no set of relaxations admits it
+	Core    []lop  // then: an illegal sub-history (labelling only)
+	Longest int    // then: operations in porcupine's longest partial linearization
 }
 
 // decide checks the strict model first; an illegal history is then classified by
-// the weakest relaxation that admits it, or minimised when none does.
+// an irreducible set of relaxations that admits it, or minimised when none does.
 func decide(h []lop) verdict {
 	switch check(relax{}, h) {
 	case porcupine.Ok:
@@ -353,15 +394,35 @@ func decide(h []lop) verdict {
 	case porcupine.Unknown:
 		return verdict{Result: "unknown"}
 	}
-	for _, rx := range []relax{{M: true}, {R: true}, {M: true, R: true}} {
-		switch check(rx, h) {
+	// every relaxation together admits at least what any subset admits
+	all := relax{M: true, R: true, D: true, H: true}
+	switch check(all, h) {
+	case porcupine.Illegal:
+		res, info := porcupine.CheckOperationsVerbose(porcModel(all), buildOps(all, h), porcTimeout)
+		_ = res
+		longest := 0
+		for _, part := range info.PartialLinearizations() {
+			for _, l := range part {
+				longest = max(longest, len(l))
+			}
+		}
+		return verdict{Result: "illegal", None: true, Core: minimise(all, h), Longest: longest}
+	case porcupine.Unknown:
+		return verdict{Result: "unknown"}
+	}
+	// drop what is not needed (defect models first): an irreducible explaining set
+	cur := all
+	for _, drop := range []func(*relax){func(r *relax) { r.H = false }, func(r *relax) { r.D = false }, func(r *relax) { r.R = false }, func(r *relax) { r.M = false }} {
+		cand := cur
+		drop(&cand)
+		switch check(cand, h) {
 		case porcupine.Ok:
-			return verdict{Result: "illegal", Level: rx.String()}
+			cur = cand
 		case porcupine.Unknown:
 			return verdict{Result: "unknown"}
 		}
 	}
-	return verdict{Result: "illegal", Level: "none", Core: minimise(relax{M: true, R: true}, h)}
+	return verdict{Result: "illegal", Level: cur}
 }
 
 // minimise removes operations while the rest stays illegal, using only sound
@@ -449,13 +510,43 @@ func label(core []lop) string {
 		}
 	}
 	if len(obs) == 0 {
-		return canon(core)
+		return canon(shrinkEffects(core))
 	}
 	parts := strings.Split(canon(obs), ",")
 	for i, j := 0, len(parts)-1; i < j; i, j = i+1, j-1 {
 		parts[i], parts[j] = parts[j], parts[i]
 	}
 	return strings.Join(parts, ",")
+}
+
+// shrinkEffects reduces a core made of effects only (e.g. two owners of one
+// name) to a few operations for the label. Unlike minimise this may drop
+// operations the rest depends on, so it is used for naming only.
+func shrinkEffects(core []lop) []lop {
+	all := relax{M: true, R: true, D: true, H: true}
+	cur := append([]lop(nil), core...)
+	for changed := true; changed; {
+		changed = false
+		for i := len(cur) - 1; i >= 0; i-- {
+			o := cur[i]
+			if o.Kind.isInst() && o.Res == rOK {
+				used := false
+				for j, p := range cur {
+					if j != i && p.ID == o.ID {
+						used = true
+					}
+				}
+				if used {
+					continue
+				}
+			}
+			cand := append(append([]lop(nil), cur[:i]...), cur[i+1:]...)
+			if len(cand) > 0 && check(all, cand) == porcupine.Illegal {
+				cur, changed = cand, true
+			}
+		}
+	}
+	return cur
 }
 
 // canon renders operations with names and ids renamed in order of appearance
